@@ -163,7 +163,9 @@ Sources ==
 Cases == {[src |-> s, T |-> T] : s \in Sources, T \in Targets}
 
 (******************************* programs *********************************)
-ProgNames == <<"to", "conv", "toto", "strto">>
+(* rteq: the round trip stated INSIDE the language, x.toT() = x.toT().toString().toT() - a component the result hides from   *)
+(* its own rendering (a Date that still carries a time of day) shows in the comparison                                   *)
+ProgNames == <<"to", "conv", "toto", "strto", "rteq">>
 (* for x already of type T additionally  strconv  x.toString().convertsToT()  (must be true:
    the round-trip clause x.toString().toT() = x is hard for every type and precision) *)
 ProgNamesFor(T, x) == IF x.t = TagOf(T) THEN ProgNames \o <<"strconv">> ELSE ProgNames
@@ -173,6 +175,7 @@ Suffix(p, T) ==
     [] p = "toto"  -> ".to" \o T \o "().to" \o T \o "()"
     [] p = "strto" -> ".toString().to" \o T \o "()"
     [] p = "strconv" -> ".toString().convertsTo" \o T \o "()"
+    [] p = "rteq"  -> ".select($this.to" \o T \o "() = $this.to" \o T \o "().toString().to" \o T \o "())"
     [] p = "str"   -> ".toString()"
 Progs(T, x) == LET ns == ProgNamesFor(T, x) IN [k \in 1..Len(ns) |-> [p |-> ns[k], sfx |-> Suffix(ns[k], T)]]
 
